@@ -18,7 +18,7 @@ ASSUMPTIONS = ['domain: |k_i| < 1 (alphabet moduli <= 0.98), kappa = prod 1/(1-|
 def bounds(tier):
     q = tier == 'quick'
     return {'rc_exhaustive_order': '1..4 real, 1..3 complex' if q else '1..6 real, 1..5 complex',
-            'rc_families_order': '7..10' if q else '7..16', 'r0': [1e-18, 1.0, 2.5, 1e12], 'lar_is_grid': '-0.98..0.98 step 0.01',
+            'rc_families_order': '7..10' if q else '7..16', 'r0': [1e-18, 1.0, 2.5, 1e12, 1e-200, 1e200], 'optional_arguments': 'rc2poly without r0; integer final error in poly2ac / poly2rc', 'lar_is_grid': '-0.98..0.98 step 0.01',
             'lsf': 'real vectors above, order <= %d exhaustive + families' % (4 if q else 6)}
 
 
@@ -49,7 +49,7 @@ def run_shard(desc, R, tier):
         alpha = lp.RC_CPLX if cplx else lp.RC_REAL
         for t in itertools.product(alpha, repeat=p - len(prefix)):
             k = np.array([alpha[i] for i in prefix] + list(t), dtype=complex if cplx else float)
-            for r0 in (1e-18, 1.0, 2.5, 1e12):
+            for r0 in (1e-18, 1.0, 2.5, 1e12) + ((1e-200, 1e200) if p <= (3 if tier == 'quick' else 4) else ()):
                 eval_point({'kind': 'lp', 'k': k, 'r0': r0}, R)
             if not cplx:
                 eval_point({'kind': 'lar_is', 'k': k}, R)
@@ -58,7 +58,7 @@ def run_shard(desc, R, tier):
         p = desc[1]
         for cplx in (False, True):
             for name, k in lp.rc_families(p, cplx):
-                eval_point({'kind': 'lp', 'k': k, 'r0': [1e-18, 1.0, 1e12][p % 3], 'family': name}, R)
+                eval_point({'kind': 'lp', 'k': k, 'r0': [1e-18, 1.0, 1e12, 1e-200, 1e200][p % 5], 'family': name}, R)
                 if not cplx:
                     eval_point({'kind': 'lar_is', 'k': k}, R)
                     eval_point({'kind': 'lsf', 'k': k, 'family': name}, R)
@@ -144,6 +144,11 @@ def eval_point(pt, R):
             a_rc, e_rc = out
             cmp('rc2poly', a_rc, a, 'rc2poly polynomial != reference step-up', 1.0)
             cmp('rc2poly', np.array([np.real(e_rc)]), np.array([ef]), 'rc2poly final error != r0*prod(1-|k|^2)', r0)
+        if r0 == 1.0:
+            # the zero-lag argument is optional: the polynomial must not depend on it being given
+            out, ok = _call(R, 'rc2poly', dict(feats, r0='omitted'), pt, L.rc2poly, k)
+            if ok:
+                cmp('rc2poly', out[0], a, 'rc2poly(k) without r0: polynomial != reference step-up', 1.0)
         out, ok = _call(R, 'rc2ac', feats, pt, L.rc2ac, k, r0)
         r_rc = None
         if ok:
@@ -160,6 +165,17 @@ def eval_point(pt, R):
         if ok:
             r_po = np.asarray(out)
             cmp('poly2ac', r_po, r.astype(complex), 'poly2ac autocorrelation != reference', r0)
+        if r0 == 2.5:
+            # a final error given as an integer (Python int / numpy integer): same conversions as for the float 3.0
+            gain = float(np.prod(1.0 - np.abs(k) ** 2))
+            r3 = lp.rc2ac(k, 3.0 / gain)
+            for ef_int, tag in ((3, 'int'), (np.int64(3), 'np.int64')):
+                out, ok = _call(R, 'poly2ac', dict(feats, efinal=tag), pt, L.poly2ac, a, ef_int)
+                if ok:
+                    cmp('poly2ac', np.asarray(out), r3.astype(complex), 'poly2ac with an integer final error != reference', 3.0 / gain)
+                out, ok = _call(R, 'poly2rc', dict(feats, efinal=tag), pt, L.poly2rc, a, ef_int)
+                if ok:
+                    cmp('poly2rc', np.asarray(out), k, 'poly2rc with an integer final error != reference step-down', 1.0)
         # compositions on the implementation's own outputs (commutation, round trips)
         if k_ac is not None and a_ac is not None:
             out, ok = _call(R, 'commute', feats, pt, L.rc2poly, k_ac, r0)
